@@ -66,10 +66,21 @@ def check(tier: str) -> Result:
                             st2 = [f for f in st2 if f != "action_mask"]
                             res.add("C12.R1c", site, fn, f"Observation.{path}{tag} (= State.action_mask) is computed from the returned state",
                                     not st2, f"mask reads superseded state field(s) {st2}" if st2 else "no stale read")
-                    if top in sfields and path == top:
+                    if top in sfields:
                         B = vfg.mk_attr(st, top)
+                        # nested records: compare leaf with the leaf at the same path when the state has one
+                        parts = path.split(".")[1:]
+                        tB = vfg.typeof(B)
+                        for part in parts:
+                            if B.kind == "construct" and part in dict(B.args[1]):
+                                B = dict(B.args[1])[part]
+                            elif tB is not None and part in tree.fields(tB):
+                                B = vfg.mk_attr(B, part)
+                            else:
+                                break
+                            tB = vfg.typeof(B)
                         rel = same_or_depends(vfg, val, B)
-                        res.add("C12.R1b", site, fn, f"Observation.{path}{tag} agrees with returned State.{top}", bool(rel),
+                        res.add("C12.R1b", site, fn, f"Observation.{path}{tag} agrees with returned State.{path}", bool(rel),
                                 {"copy": "plain copy (same value)", "view": "computed from the state field"}.get(rel) or
                                 f"observation shows {txt(val, 4, 100)} but the returned state holds {txt(B, 4, 100)}")
     res.analysed = {"environments": len(analyses(tree)), "functions": n_funcs, "observation_fields": n_fields}
